@@ -656,18 +656,28 @@ def snapshot(x, cold=False):
             put("consts", lambda: [repr(a) for a in x.constants()])
             # the cached accessors must agree with what the integrals say
             try:
-                bad = []
                 fa, fc = fr()
-                if sorted(repr(a) for a in x.arguments()) != sorted(fa):
-                    bad.append("args")
-                if sorted(repr(c) for c in x.coefficients()) != sorted(fc):
-                    bad.append("coeffs")
-                if x.signature() != ops.obs_sig_fresh(x):
-                    bad.append("sig")
-                s["cachecheck"] = "ok" if not bad else ",".join(bad)
+                fsig = ops.obs_sig_fresh(x)
             except BaseException:  # noqa: B036
-                # an accessor that raises (ill-posed form) is not a disagreement
-                pass
+                # the from-scratch analysis raises (ill-posed form): nothing to compare with
+                fa = None
+            if fa is not None:
+                bad = []
+                for what, cached, fresh in (
+                    ("args", lambda: sorted(repr(a) for a in x.arguments()), sorted(fa)),
+                    ("coeffs", lambda: sorted(repr(c) for c in x.coefficients()), sorted(fc)),
+                    ("sig", lambda: x.signature(), fsig),
+                ):
+                    try:
+                        if cached() != fresh:
+                            bad.append(what)
+                    except BaseException as ex:  # noqa: B036
+                        if isinstance(ex, (KeyboardInterrupt, RecursionError, MemoryError)):
+                            raise
+                        # a fresh form over the same integrals can be analysed, the object
+                        # itself can not (any more): a poisoned lazy cache
+                        bad.append(what + "-raises")
+                s["cachecheck"] = "ok" if not bad else ",".join(bad)
     elif isinstance(x, BaseForm):
         if not cold:
             put("hash", lambda: hash(x))
